@@ -137,6 +137,14 @@ pub struct Behav {
     pub disposes: AtomicU64,
     pub counter: AtomicU64,
     pub seen: AtomicU64,
+    /// for the tag of a batch driven by the library's `MultiDispatcher`: true, and the number of
+    /// times its controller has run (the library gives no hook between the inner dispatches, so
+    /// the systems directly inside such a batch count their own runs since the controller's
+    /// last start to know the iteration they are in)
+    pub is_multi: AtomicBool,
+    pub multi_epoch: AtomicUsize,
+    pub it_epoch: AtomicUsize,
+    pub it_count: AtomicUsize,
 }
 
 pub struct Shared {
@@ -150,6 +158,12 @@ pub struct Shared {
     pub ident: AtomicBool,
     pub rendezvous_timeout_us: AtomicU64,
     pub lifecycle: Mutex<Vec<(char, usize)>>,
+    /// number of the current dispatch; part of every injected panic's payload, so that a payload
+    /// left over from an earlier dispatch is recognised
+    pub round: AtomicUsize,
+    /// register `MultiDispatcher` batches without the harness's event wrapper (engines that do
+    /// not dispatch): exactly what a user of the library writes
+    pub direct_multi: AtomicBool,
 }
 impl Shared {
     pub fn new(ntags: usize) -> Arc<Shared> {
@@ -163,6 +177,8 @@ impl Shared {
             ident: AtomicBool::new(false),
             rendezvous_timeout_us: AtomicU64::new(2000),
             lifecycle: Mutex::new(vec![]),
+            round: AtomicUsize::new(0),
+            direct_multi: AtomicBool::new(false),
         })
     }
     pub fn thread_tag(&self) -> char {
@@ -213,6 +229,22 @@ pub fn on_pool() -> bool {
 
 /// enclosing batches of a system: (batch tag, that batch's current iteration)
 pub type Path = Vec<(usize, Arc<AtomicUsize>)>;
+/// instance path of `tag`; when the innermost enclosing batch is a `MultiDispatcher` batch the
+/// iteration index is this system's own run count since that batch's controller last started
+pub fn inst_of_ticked(sh: &Shared, path: &Path, tag: usize) -> Vec<usize> {
+    if let Some((b, it)) = path.last() {
+        if sh.behav[*b].is_multi.load(SeqCst) {
+            let e = sh.behav[*b].multi_epoch.load(SeqCst);
+            let me = &sh.behav[tag];
+            if me.it_epoch.swap(e, SeqCst) != e {
+                me.it_count.store(0, SeqCst);
+            }
+            let c = me.it_count.fetch_add(1, SeqCst);
+            it.store(c, SeqCst);
+        }
+    }
+    inst_of(path, tag)
+}
 pub fn inst_of(path: &Path, tag: usize) -> Vec<usize> {
     let mut v = vec![];
     for (b, it) in path {
@@ -276,12 +308,12 @@ impl<'a> DynamicSystemData<'a> for Data<'a> {
         a.shared.lifecycle.lock().unwrap().push(('S', a.tag));
     }
     fn fetch(a: &Acc, w: &'a World) -> Self {
-        let inst = inst_of(&a.path, a.tag);
+        let inst = inst_of_ticked(&a.shared, &a.path, a.tag);
         a.shared.push('F', inst.clone());
         // from here on the drop of `d` logs D (or P while unwinding)
         let mut d = Data { tag: a.tag, inst, shared: a.shared.clone(), reads: vec![], writes: vec![] };
         if a.shared.behav[a.tag].panic_mode.load(SeqCst) == 2 {
-            panic!("harness panic (fetch) {}", a.tag);
+            panic!("harness panic (fetch) {} #{}", a.tag, a.shared.round.load(SeqCst));
         }
         if a.borrow {
             let (r, wr) = a.fetched();
@@ -365,7 +397,7 @@ impl<'a> System<'a> for HSys {
             }
         }
         if b.panic_mode.load(SeqCst) == 1 {
-            panic!("harness panic (run) {}", d.tag);
+            panic!("harness panic (run) {} #{}", d.tag, sh.round.load(SeqCst));
         }
     }
     fn running_time(&self) -> RunningTime {
@@ -387,7 +419,7 @@ impl<'a> System<'a> for HSys {
     }
 }
 
-/// batch controllers with the four kinds of declared data of `gen::CTL`
+/// batch controllers with the kinds of declared data of `gen::CTL`
 pub struct CtlCore {
     pub tag: usize,
     pub n: usize,
@@ -397,8 +429,10 @@ pub struct CtlCore {
     pub iter: Arc<AtomicUsize>,
 }
 impl CtlCore {
-    fn go<'a, 'b>(&mut self, w: &World, d: &mut Dispatcher<'a, 'b>) {
-        let inst = inst_of(&self.path, self.tag);
+    /// `lib`: the library's own `BatchController::run` to delegate to (`MultiDispatcher`); `None`:
+    /// the harness's loop of `n` inner dispatches
+    fn go<'a, 'b, 'c>(&mut self, w: &'c World, d: &mut Dispatcher<'a, 'b>, lib: Option<&mut dyn FnMut(&'c World, &mut Dispatcher<'a, 'b>)>) {
+        let inst = inst_of_ticked(&self.shared, &self.path, self.tag);
         struct Win(Arc<Shared>, Vec<usize>);
         impl Drop for Win {
             fn drop(&mut self) {
@@ -410,14 +444,18 @@ impl CtlCore {
         let _win = Win(self.shared.clone(), inst);
         let b = &self.shared.behav[self.tag];
         b.runs.fetch_add(1, SeqCst);
+        b.multi_epoch.fetch_add(1, SeqCst);
         self.shared.shapes.lock().unwrap().insert(self.tag, d.verif_shape());
         if b.panic_mode.load(SeqCst) == 1 {
-            panic!("harness panic (run) {}", self.tag);
+            panic!("harness panic (run) {} #{}", self.tag, self.shared.round.load(SeqCst));
         }
         if self.shared.ident.load(SeqCst) {
             self.iter.store(0, SeqCst);
             d.dispatch_seq(w);
             d.dispatch_thread_local(w);
+        } else if let Some(f) = lib {
+            self.iter.store(0, SeqCst);
+            f(w, d);
         } else {
             for i in 0..self.n {
                 self.iter.store(i, SeqCst);
@@ -437,7 +475,7 @@ macro_rules! ctl {
                     // inner systems (which may use the same resources) run
                     let _data: $d = w.system_data();
                 }
-                self.0.go(w, d);
+                self.0.go(w, d, None);
             }
             fn running_time(&self) -> RunningTime {
                 rt(self.0.t)
@@ -451,3 +489,36 @@ ctl!(Ctl2, Write<'c, R<1>>);
 ctl!(Ctl3, (Read<'c, R<2>>, Write<'c, R<0>>));
 ctl!(Ctl4, Option<Read<'c, R<3>>>);
 ctl!(Ctl5, WriteExpect<'c, R<4>>);
+// the same resources declared in both orders (one of them is descending in `ResourceId` order,
+// whatever the compiler's `TypeId`s are)
+ctl!(Ctl6, (Write<'c, R<4>>, Write<'c, R<5>>));
+ctl!(Ctl7, (Write<'c, R<5>>, Write<'c, R<4>>));
+ctl!(Ctl8, (Read<'c, R<3>>, Read<'c, R<2>>, Write<'c, R<1>>));
+
+/// the library's `MultiDispatcher` around a `MultiDispatchController` that plans a fixed number
+/// of inner dispatches; the harness wrapper only adds the window events around the library's `run`
+pub struct Plan9(pub usize);
+impl<'a> MultiDispatchController<'a> for Plan9 {
+    type SystemData = ();
+    fn plan(&mut self, _: ()) -> usize {
+        self.0
+    }
+}
+pub struct Plan10(pub usize);
+impl<'a> MultiDispatchController<'a> for Plan10 {
+    type SystemData = (Write<'a, R<5>>, Read<'a, R<3>>);
+    fn plan(&mut self, _: Self::SystemData) -> usize {
+        self.0
+    }
+}
+pub struct MCtl<C>(pub CtlCore, pub MultiDispatcher<C>);
+impl<'a, 'b, 'c, C: MultiDispatchController<'c>> BatchController<'a, 'b, 'c> for MCtl<C> {
+    type BatchSystemData = C::SystemData;
+    fn run(&mut self, w: &'c World, d: &mut Dispatcher<'a, 'b>) {
+        let m = &mut self.1;
+        self.0.go(w, d, Some(&mut |w2: &'c World, d2: &mut Dispatcher<'a, 'b>| m.run(w2, d2)));
+    }
+    fn running_time(&self) -> RunningTime {
+        rt(self.0.t)
+    }
+}
